@@ -112,7 +112,7 @@ def canon(v, exact=True):
         return ("sym", tuple(names), tuple(_r(x) for x in vals))
     if k == "rrt":
         regs, vals = rrt_values(v)
-        return ("rrt", tuple(regs), tuple(_r(x) for x in vals)) + ((sym.srepr(v.expr),) if exact else ())
+        return ("rrt", tuple(regs), tuple(_r(x) for x in vals)) + ((sym.srepr(v.expr), str(getattr(v, "func_str", None)), str(v)) if exact else ())
     if k == "n":
         return ("n",)
     if k == "d":
